@@ -547,6 +547,8 @@ class Library:
             fl.append("--generate-inline-functions")
         if o["plink"]:
             fl += ["--prefix-link-name", "q_"]
+        if o.get("distrust"):
+            fl.append("--distrust-clang-mangling")
         ov = [f["name"] for f in self.fns if f.get("abiov")]
         if ov:
             fl.append("--override-abi=%s=%s" % ("|".join(re.escape(n) for n in ov), o["abiov"]))
